@@ -69,6 +69,18 @@ def build_translator():
     return out
 
 
+def build_sitescan():
+    out = os.path.join(CACHE, "bin", "sitescan")
+    src = os.path.join(VERIF, "sitescan")
+    srcs = [os.path.join(src, f) for f in os.listdir(src) if f.endswith(".go")]
+    if os.path.exists(out) and all(os.path.getmtime(s) < os.path.getmtime(out) for s in srcs):
+        return out
+    p = run(["go", "build", "-o", out, "."], cwd=src, env=goenv())
+    if p.returncode != 0:
+        raise RuntimeError("sitescan build failed:\n" + p.stderr)
+    return out
+
+
 def regenerate():
     """Re-extract DDP/Generated/*.lean from /repo's working tree. Returns
     (ok, message). Deletes stale generated files first."""
@@ -81,6 +93,14 @@ def regenerate():
     if p.returncode != 0:
         shutil.rmtree(tmp, ignore_errors=True)
         return False, (p.stdout + p.stderr)
+    # typed inventory of order-sensitive sites (go/packages over the working tree)
+    from .pipeline import llvm_env
+    e = llvm_env()
+    e["GOFLAGS"] = "-mod=mod -tags=byollvm"
+    p2 = run([build_sitescan(), "-repo", REPO, "-out", tmp], cwd=REPO, env=e, timeout=1200)
+    if p2.returncode != 0:
+        shutil.rmtree(tmp, ignore_errors=True)
+        return False, "sitescan: " + (p2.stdout + p2.stderr)[-3000:]
     # only replace files whose content changed (keeps lake's incremental build)
     os.makedirs(gen, exist_ok=True)
     new = set(os.listdir(tmp))
